@@ -456,9 +456,10 @@ def equiv_tasks(ctx: common.Ctx, tab: dict[str, Any], scale: float) -> Iterator[
     entries = [e for _, e in sorted(tab["entries"].items())]
     groups = special_groups(tab, thorough)
     # quick tier: complete builds under non-default *global* options (one cold typeshed build each) for a seeded sample
-    names = sorted(e["dest"] for e in entries)
-    full = set(common.rng_for("C17", "full-build-sample").sample(names, min(len(names), 14))) | {"disallow_untyped_defs", "follow_imports"}
-    ctx.extra["quick_tier_full_build_sample"] = sorted(full) if not thorough else "all"
+    cold = sorted(e["dest"] for e in entries if e.get("affects_cache") or e["dest"] in plan.COLD_WHEN_GLOBAL)
+    sample = set(common.rng_for("C17", "full-build-sample").sample(cold, min(len(cold), 10))) | {"disallow_untyped_defs", "follow_imports"}
+    full = sample | {e["dest"] for e in entries if e["dest"] not in cold}
+    ctx.extra["quick_tier_full_build_sample"] = {"cold_build_options_total": len(cold), "sampled": sorted(sample)} if not thorough else "all"
     for e in entries:
         if e["dest"] in ("config_file",) or e.get("special") and e["dest"] not in ("python_version", "python_executable"):
             d = e["dest"]
@@ -526,6 +527,12 @@ def run(ctx: common.Ctx) -> None:
     if not quick:
         # size-4 sets over the base alphabet, ini only
         cases += [c for c in prec_cases(PATTERNS, 4, ["ini"]) if len(c["sections"]) == 4]
+        # one section header naming two patterns (ini: [mypy-p,q]; toml: module = [p, q]) next to an ordinary section
+        for p1, p2, p3 in itertools.permutations(PATTERNS, 3):
+            for variant in (0, 3):
+                for fmt in fmts:
+                    cases.append({"sections": [f"{p1},{p2}", p3], "variant": variant, "fmt": fmt})
+                    cases.append({"sections": [p3, f"{p1},{p2}"], "variant": variant, "fmt": fmt})
     total_cases = len(cases)
     rng = common.rng_for("C17", "prec")
     if scale < 1:
@@ -585,7 +592,8 @@ def run(ctx: common.Ctx) -> None:
 
             for t, r in pool.imap(tasks(), timeout=900):
                 if not r.get("ok"):
-                    ctx.inconc(f"{t['_kind']}:runner:" + ("timeout" if r.get("timeout") else "died" if r.get("died") else str(r.get("exc"))[:80]))
+                    ctx.inconc(f"{t['_kind']}:runner:" + ("timeout" if r.get("timeout") else f"died(rc={r.get('returncode')})" if r.get("died")
+                                                          else str(r.get("exc"))[:80]))
                     if r.get("tb"):
                         ctx.extra.setdefault("runner_errors", []).append(r["tb"][-600:])
                     continue
